@@ -207,6 +207,8 @@ impl Ls {
                         e
                     );
                     matcher_io.set_exit_code(1);
+                } else {
+                    matcher_io.standard_output_failed(&e);
                 }
             }
         }
@@ -274,6 +276,8 @@ impl Ls {
                         e
                     );
                     matcher_io.set_exit_code(1);
+                } else {
+                    matcher_io.standard_output_failed(&e);
                 }
             }
         }
